@@ -25,9 +25,9 @@ S = dict(prop='C15', overlays=['contracts/dispatch.ovl'], harness='harness/C15/s
 NO_OVF = ['--bounds-check', '--pointer-check', '--div-by-zero-check', '--undefined-shift-check', '--no-signed-overflow-check']
 # inner fixed-width loops of ALL kernels in the file (the loop-contract pass visits every function of the
 # translation unit and refuses an uncontracted loop nested in a contracted one) -> unwound completely
-UNW_SCALAR = ['scalar_byte_split_encode_float.1:5', 'scalar_byte_split_decode_float.1:5',
-              'scalar_byte_split_encode_double.1:9', 'scalar_byte_split_decode_double.1:9',
-              'scalar_pack_bools.1:9', 'spec_crc32c_byte.0:9']
+UNW_SCALAR = ['scalar_byte_split_encode_float.0:5', 'scalar_byte_split_decode_float.0:5',
+              'scalar_byte_split_encode_double.0:9', 'scalar_byte_split_decode_double.0:9',
+              'scalar_pack_bools.0:9', 'spec_crc32c_byte.0:9']
 def sj(fn, loops=1, **kw):
     d = dict(name='c15_' + fn, entry='h_' + fn, enforce=fn, min_loop_obligations=loops, wip=True, unwindset=UNW_SCALAR)
     d.update(S); d.update(kw)
@@ -40,11 +40,13 @@ JOBS += [
     sj('scalar_byte_split_decode_float'),
     sj('scalar_byte_split_encode_double'),
     sj('scalar_byte_split_decode_double'),
-    sj('scalar_unpack_bools'),
+    sj('scalar_unpack_bools', note='FINDING: byte index narrowed to int; count > 2^34 reads input[] at a negative index'),
+    sj('scalar_unpack_bools', name='c15_scalar_unpack_bools_lt2e34', defines=X86 + ['CQV_BOOLS_MAX=17179869184LL'],
+       level='bounded', bound='count <= 2^34 (byte index fits int)'),
     sj('scalar_pack_bools'),
     sj('scalar_find_run_length_i32'),
     sj('scalar_crc32c'),
-    sj('scalar_match_copy', loops=3, defines=X86 + ['CQV_MEMCPY_EXACT=16']),
+    sj('scalar_match_copy', loops=3, defines=X86 + ['CQV_MEMCPY_EXACT=16'], unwindset=UNW_SCALAR + ['memcpy.0:17']),
     sj('scalar_match_length'),
     sj('scalar_count_non_nulls'),
     sj('scalar_build_null_bitmap', loops=2),
